@@ -1,0 +1,56 @@
+//go:build verif
+
+// Contracts for package table (comment-only; read by /verif/govc, never compiled into olric).
+//
+// A table is a bump allocator over t.memory: entries (layout in package entry) are appended at t.offset,
+// t.hkeys maps a hashed key to the offset of its live entry, t.offsetIndex is the set of live offsets.
+
+package table
+
+// hk: ghost inverse of hkeys on live offsets (hk[off] = hkey).
+//@ ghost field Table.hk arr[uint64]
+
+//@ pure func (t *Table) has(h uint64) bool = h in t.hkeys
+//@ pure func (t *Table) off(h uint64) int = t.hkeys[h]
+//@ pure func (t *Table) sizeAt(o int) int = 29 + t.memory[o] + be32(t.memory, o+25+t.memory[o])
+
+// Representation invariant.
+//@ pred (t *Table) inv() =
+//@     t != nil && t.hkeys != nil && t.offsetIndex != nil &&
+//@     len(t.memory) == t.allocated && t.offset <= t.allocated && t.inuse + t.garbage == t.offset &&
+//@     (forall h uint64 :: h in t.hkeys ==> t.hkeys[h] + t.sizeAt(t.hkeys[h]) <= t.offset && t.offsetIndex.set[t.hkeys[h]] && t.hk[t.hkeys[h]] == h) &&
+//@     (forall o uint64 :: t.offsetIndex.set[o] ==> (t.hk[o] in t.hkeys) && t.hkeys[t.hk[o]] == o)
+
+//@ func New(size uint64) *Table
+//@   props C11 C20
+//@   requires #size: size <= 4611686018427387904
+//@   ensures  #inv: result.inv()
+//@   ensures  #empty: forall h uint64 :: !result.has(h)
+//@   ensures  #fields: result.allocated == size && result.offset == 0 && result.inuse == 0 && result.garbage == 0 && result.state == ReadWriteState && len(result.hkeys) == 0
+//@   ensures  #fresh: fresh(result)
+
+//@ func (t *Table) Delete(hkey uint64) error
+//@   props C11 C20
+//@   flag nounderflow
+//@   requires #inv_in: t.inv()
+//@   ensures  #inv_out: t.inv()
+//@   ensures  #absent: (result == ErrHKeyNotFound) == !old(t.has(hkey))
+//@   ensures  #err_kind: result == nil || result == ErrHKeyNotFound
+//@   ensures  #gone: !t.has(hkey)
+//@   ensures  #others: forall h uint64 :: h != hkey ==> (t.has(h) == old(t.has(h)) && t.off(h) == old(t.off(h)))
+//@   ensures  #acct [C20]: old(t.has(hkey)) ==> t.garbage == old(t.garbage) + old(t.sizeAt(t.off(hkey))) && t.inuse == old(t.inuse) - old(t.sizeAt(t.off(hkey)))
+//@   ensures  #acct_absent [C20]: !old(t.has(hkey)) ==> t.garbage == old(t.garbage) && t.inuse == old(t.inuse)
+//@   ensures  #len: len(t.hkeys) == old(len(t.hkeys)) - ite(old(t.has(hkey)), 1, 0)
+//@   modifies t.garbage, t.inuse, map(t.hkeys), t.offsetIndex.set
+
+//@ func (t *Table) Check(hkey uint64) bool
+//@   props C11
+//@   requires #inv_in: t.inv()
+//@   ensures  #iff: result == t.has(hkey)
+//@   modifies nothing
+
+//@ func (t *Table) Stats() Stats
+//@   props C11 C20
+//@   requires #inv_in: t.inv()
+//@   ensures  #fields: result.Allocated == t.allocated && result.Inuse == t.inuse && result.Garbage == t.garbage && result.Length == len(t.hkeys) && result.RecycledAt == t.recycledAt
+//@   modifies nothing
